@@ -189,6 +189,35 @@ extern "C" void cck_final()
     verif_cover(0);
 }
 
+// ---- two registrars: one registers and then requests stop, the other registers concurrently (its registration can find
+//      the state locked by the first registration, and the whole request_stop can happen before it looks again) ---------------
+struct functor3
+{
+    int id;
+    void operator()() const noexcept;
+};
+static int ran3[2];
+void functor3::operator()() const noexcept { ++ran3[id]; }
+static pika::stop_callback<functor3>* kept3[2];
+extern "C" void cc3_init()
+{
+    src = new stop_source();
+    for (int t = 0; t < 2; ++t) verif_slot_is_task[t] = (unsigned char) verif_nondet_range(0, 1);
+}
+extern "C" void cc3_thread_0()
+{
+    kept3[0] = new pika::stop_callback<functor3>(src->get_token(), functor3{0});
+    if (src->request_stop()) ++r_true;
+}
+extern "C" void cc3_thread_1() { kept3[1] = new pika::stop_callback<functor3>(src->get_token(), functor3{1}); }
+extern "C" void cc3_final()
+{
+    verif_assert(r_true == 1, "the single request_stop call returns true");
+    verif_assert(ran3[0] == 1, "the stopper's own callback runs exactly once");
+    verif_assert(ran3[1] == 1, "a callback registered concurrently with the stop request runs exactly once (by request_stop or in its constructor)");
+    verif_cover(0);
+}
+
 // ---- two callbacks; the one that is next in line is destroyed while request_stop runs the first ----------------
 struct functor2;
 static pika::stop_callback<functor2>* cb2[2];
